@@ -3,7 +3,7 @@
 use crate::{Error, Result};
 use arrow_array::RecordBatch;
 use arrow_ipc::reader::StreamReader;
-use arrow_ipc::writer::StreamWriter;
+use arrow_ipc::writer::{IpcWriteOptions, StreamWriter};
 use crc32fast::Hasher;
 use std::fs::File as StdFile;
 use std::io::{self, BufReader, Read};
@@ -316,7 +316,11 @@ fn last_sequence_in_segments(segments: &[SegmentInfo]) -> Result<Option<u64>> {
 fn encode_record_batch(batch: &RecordBatch) -> Result<Vec<u8>> {
     let mut buffer = Vec::new();
     let schema = batch.schema();
-    let mut writer = StreamWriter::try_new(&mut buffer, &schema)
+    // Dictionary ids are assigned per column by the writer. With the default options the
+    // ids of the schema's fields are kept, and fields built with `Field::new` all carry
+    // id 0: every dictionary column would be decoded against the last dictionary written.
+    let options = IpcWriteOptions::default().with_preserve_dict_id(false);
+    let mut writer = StreamWriter::try_new_with_options(&mut buffer, &schema, options)
         .map_err(|err| Error::Serialization(err.to_string()))?;
     writer
         .write(batch)
